@@ -239,6 +239,8 @@ class Interp:
                 if isinstance(v, FV):
                     return {"-inf": PINF, "+inf": PINF, "nan": NAN, "unk": UNKV}.get(v.cls) or fin(None if v.sign is None else abs(v.sign))
             raise Unsupported(f"call `{ast.unparse(e)}`")
+        if isinstance(e, (ast.Tuple, ast.List)):
+            return ("tuple", [self.ev(x, env, selfname) for x in e.elts])
         if isinstance(e, ast.JoinedStr):
             return ("const", "str")
         if isinstance(e, ast.IfExp):
@@ -298,6 +300,11 @@ class Interp:
             v = self.ev(st.value, env, selfname)
             env = dict(env)
             for t in st.targets:
+                if isinstance(t, (ast.Tuple, ast.List)) and isinstance(v, tuple) and v and v[0] == "tuple" and len(v[1]) == len(t.elts) \
+                        and all(isinstance(x, (ast.Name, ast.Attribute)) for x in t.elts):
+                    for tt, vv in zip(t.elts, v[1]):
+                        env[ast.unparse(tt)] = vv
+                    continue
                 if not isinstance(t, (ast.Name, ast.Attribute)):
                     raise Unsupported(f"assignment target `{ast.unparse(t)}`")
                 env[ast.unparse(t)] = v
